@@ -1154,7 +1154,10 @@ class FileSet:
         if self._sub_dir_time_resolution is None or start == datetime.min:
             dir_start = start
         else:
-            dir_start = start - self._sub_dir_time_resolution
+            try:
+                dir_start = start - self._sub_dir_time_resolution
+            except OverflowError:
+                dir_start = datetime.min
 
         # Filter handling:
         if filters is None:
